@@ -4,7 +4,16 @@ import math
 from fractions import Fraction
 import numpy as np
 import fcmachine as M
-from fcmachine import to_line, run_real, compare
+import predint as PI
+from fcmachine import compare
+
+
+def to_line(c):
+    return PI.to_line(c) if c.get("kind") == "pi" else M.to_line(c)
+
+
+def run_real(c):
+    return PI.run_real(c) if c.get("kind") == "pi" else M.run_real(c)
 
 PROP = "C10"
 LEAN_MODULE = "SkVerif.Props.C10"
@@ -19,6 +28,12 @@ OBLIGATIONS = [
     "SkVerif.C10.update_predict_eq_iterated_single",
     "SkVerif.C10.update_predict_labels_are_cutoffs",
     "SkVerif.C10.update_half_applied_without_fh",
+    "SkVerif.C10.update_predict_single_intervals_eq_update_then_predict",
+    "SkVerif.C10.predict_without_intervals_ignores_alpha",
+    "SkVerif.C10.point_forecasts_independent_of_interval_arguments",
+    "SkVerif.C10.interval_rows_follow_forecasts",
+    "SkVerif.C10.one_table_per_level",
+    "SkVerif.C10.update_predict_refuses_intervals_untouched",
 ]
 TRUSTED = ["hand-written model SkVerif/Model/Forecaster.lean + Series.lean of the forecaster base classes (shared with C03)",
            "pandas combine_first is modelled as right-biased union on labels with NaN filled from the older series (exercised by the correspondence)"]
@@ -47,6 +62,8 @@ def _twin(c, ops):
 
 
 def oracle(c, out):
+    if c.get("kind") == "pi":
+        return PI.oracle(c, out)
     fails = []
     res, ys = M.parse_tokens(out)
     name = c["core"]
@@ -596,10 +613,14 @@ def _check_update_predict(c, i, r):
 
 
 def nontrivial(c, out):
+    if c.get("kind") == "pi":
+        return PI.nontrivial(c, out)
     return ("S[" in out or "F[" in out) and any(o[0] in ("upd", "ups", "up") for o in c["ops"])
 
 
 def features(c, out):
+    if c.get("kind") == "pi":
+        return PI.features(c, out)
     f = ["core=" + (c["core"] if not c["core"].startswith("opaque") else "opaque"), "mode=" + c["mode"]]
     for op in c["ops"]:
         f.append("op=" + op[0] + (":refit" if op[0] in ("upd",) and op[2] else ""))
@@ -726,10 +747,15 @@ def gen_cases(tier, rng):
                           "shift": 0, "range": rng.random() < 0.5})
     for cc in cases:
         cc.setdefault("other", rng.random() < 0.3)      # a second object of the same kind is used in between
+    # prediction intervals through predict / update_predict_single / update_predict (Model/PredInt.lean)
+    cases += PI.gen_cases(tier, rng)
     return cases
 
 
 def shrink(c):
+    if c.get("kind") == "pi":
+        yield from PI.shrink(c)
+        return
     ops = c["ops"]
     for i in range(len(ops) - 1, 0, -1):
         yield dict(c, ops=ops[:i] + ops[i + 1:])
